@@ -44,6 +44,16 @@ def send_sites(repo):
     return sorted(set(out))
 
 
+def to_int(a):
+    """Unsigned integer code of a dealt value: field element, plain int, or raw gfpx polynomial."""
+    if isinstance(a, int):
+        return a
+    if hasattr(a, 'field') or type(a).__name__.endswith('FieldElement') or hasattr(type(a), 'modulus'):
+        v = a.value
+        return v if isinstance(v, int) else int(v)
+    return int(a)
+
+
 def run(ctx):
     import gen_deal_sites
     from lib.sim import Sim, Fifo
@@ -94,7 +104,7 @@ def run(ctx):
                                     sec = sim.secrets[_i]
                                     n0 = len(sec.log)
                                     pc = sim.mpcs[_i]._program_counter[0]
-                                    vals = [int(a.value) if hasattr(a, 'value') else int(a) for a in s]
+                                    vals = [to_int(a) for a in s]
                                     r = _o(field, s, tt, mm)
                                     deals.append({'party': _i, 'pc': pc, 'vals': vals, 't': tt, 'm': mm,
                                                   'drawn': len(sec.log) - n0, 'n': len(s), 'field': field,
@@ -114,6 +124,10 @@ def run(ctx):
                             lt = a[0] < a[1]
                             x = mpc.input(secfxp(inputs[pid] / 4 + 0.3), senders=[0, m - 1])   # never a whole number (see F-C03)
                             y = x[0] * x[1]
+                            f3 = mpc.SecFld(3)        # lifted to an extension field when m >= 3 (dealing points must be nonzero)
+                            z = mpc.input(f3(inputs[pid] % 3))
+                            zz = z[0] * z[1] + z[m - 1]
+                            await mpc.output(zz)
                             outs = await mpc.output([b, lt] + rb)
                             o2 = await mpc.output([c, y])
                             await mpc.output(r)
@@ -136,6 +150,9 @@ def run(ctx):
                         ctx.violation('program-failed-or-parties-disagree m=%d t=%d' % (m, t), {**key, 'result': str(res)[:400]})
                     for d in deals:
                         ndeal += 1
+                        if d['m'] >= d['field'].order:
+                            ctx.violation('dealing-field-not-larger-than-parties m=%d t=%d' % (m, t),
+                                          {**key, 'party': d['party'], 'pc': d['pc'], 'field_order': d['field'].order, 'parties': d['m']})
                         if d['t'] != d['threshold'] or d['m'] != d['nparties'] or d['drawn'] != d['t'] * d['n']:
                             ctx.violation('dealing-degree-not-threshold m=%d t=%d' % (m, t),
                                           {**key, 'party': d['party'], 'pc': d['pc'], 'degree_arg': d['t'], 'threshold': d['threshold'],
@@ -156,6 +173,38 @@ def run(ctx):
                         if payloads == f2[(src, dst, pc)] and len(payloads[0]) >= 6:
                             ctx.violation('dealing-message-independent-of-tape m=%d t=%d' % (m, t),
                                           {**key, 'src': src, 'dst': dst, 'pc': pc, 'payload': payloads[0].hex()})
+    # ---- threshold changed programmatically after start-up (degree must follow the threshold in force)
+    for (m, t0, t1) in [(3, 0, 1), (5, 1, 2), (5, 2, 1)]:
+        sim = Sim(m, t0, no_prss=True, seed=rng.randrange(10**6))
+        deals = []
+        try:
+            for i in range(m):
+                th = sim.mods[i]['mpyc.thresha']
+                orig = th.random_split
+
+                def wrapped2(field, s, tt, mm, _o=orig, _i=i):
+                    deals.append({'party': _i, 't': tt, 'threshold': sim.mpcs[_i].threshold, 'n': len(s)})
+                    return _o(field, s, tt, mm)
+                th.random_split = wrapped2
+            sim.start()
+
+            async def prog2(mpc, mods, pid):
+                mpc.threshold = t1
+                secint = mpc.SecInt(16)
+                a = mpc.input(secint(pid + 2))
+                b = a[0] * a[1]
+                return int(await mpc.output(b))
+            res = sim.run(prog2, Fifo(), idle_limit=400)
+            key = {'m': m, 'threshold_at_start': t0, 'threshold_set_by_program': t1}
+            ctx.case(key, kind='threshold changed at run time')
+            if res != [6] * m:
+                ctx.violation('threshold-change-run-wrong m=%d' % m, {**key, 'result': str(res)})
+            for d in deals:
+                ndeal += 1
+                if d['t'] != d['threshold']:
+                    ctx.violation('dealing-degree-not-threshold-in-force m=%d t=%d' % (m, t1), {**key, **d})
+        finally:
+            sim.close()
     ctx.extra['dealings_intercepted'] = ndeal
     ctx.log('%d dealings intercepted; %d dealing sites, %d send sites in source' % (ndeal, len(sites), len(senders)))
     if ndeal == 0:
